@@ -349,6 +349,38 @@ fn cmd_enum(args: &[String]) {
     }
 }
 
+/// Binding C: follow a specification-produced interleaving in the real runtime; report where the
+/// runtime cannot follow (no decision between two steps, or the needed task is not offered).
+fn cmd_directed(args: &[String]) {
+    let progs = read_progs(arg(args, "--progs").expect("--progs"));
+    let idx: usize = arg(args, "--idx").expect("--idx").parse().unwrap();
+    let p = &progs[idx];
+    let wit: Vec<(usize, usize, String)> = serde_json::from_str::<Vec<(usize, usize, String)>>(arg(args, "--witness").expect("--witness")).unwrap();
+    let child_of: Vec<Vec<i64>> = p.tasks.iter().map(|t| t.iter().map(|o| if o.k == "spawn" || o.k == "spawn_future" { o.v } else { -1 }).collect()).collect();
+    let d = rec::Directed::new(wit.clone(), child_of);
+    rec::reset_log();
+    let sched = Recorder::new(d.clone(), p.id);
+    let runner = Runner::new(sched, config_for(p));
+    let pr = Arc::new(p.clone());
+    IN_EXEC.store(true, std::sync::atomic::Ordering::Relaxed);
+    let res = panic::catch_unwind(panic::AssertUnwindSafe(|| {
+        runner.run(move || interp::run_main(Arc::clone(&pr)));
+    }));
+    IN_EXEC.store(false, std::sync::atomic::Ordering::Relaxed);
+    d.st.lock().unwrap().absorb();
+    match res {
+        Ok(()) => rec::finish_exec_quiet(),
+        Err(e) => rec::finish_exec(end_event_for_panic(&payload_msg(&e))),
+    }
+    let done = rec::take_done();
+    let evs = done.into_iter().next().unwrap_or_default();
+    let outcome = outcome_of(&evs, p.tasks.len());
+    let st = d.st.lock().unwrap();
+    let evv: Vec<Value> = evs.iter().map(|e| serde_json::from_str(e).unwrap()).collect();
+    println!("{}", json!({"prog": p.id, "followed": st.divergence.is_none() && st.k >= st.witness.len(), "k": st.k,
+        "divergence": st.divergence, "outcome": outcome.map(|o| serde_json::from_str::<Value>(&o).unwrap()), "events": evv}));
+}
+
 fn main() {
     let args: Vec<String> = std::env::args().collect();
     // keep the hook quiet inside executions: failing executions are data, not noise
@@ -360,6 +392,7 @@ fn main() {
     match args.get(1).map(|s| s.as_str()) {
         Some("one") => cmd_one(&args),
         Some("enum") => cmd_enum(&args),
+        Some("directed") => cmd_directed(&args),
         _ => {
             eprintln!("usage: vharness enum|one ...");
             std::process::exit(2);
